@@ -20,6 +20,7 @@ import (
 	scalibrfs "github.com/google/osv-scalibr/fs"
 	"github.com/google/osv-scalibr/guidedremediation"
 	"github.com/google/osv-scalibr/plugin"
+	"github.com/google/osv-scalibr/stats"
 	"verif/memfs"
 	"verif/scankit"
 	u "verif/universe"
@@ -117,7 +118,7 @@ func patches(iter int) int {
 }
 
 // longScan lasts longer than the 2 s status-reporting interval: one extraction blocks for
-// 2.3 s, and many small files are visited around it.
+// 3.2 s, and many small files are visited around it.
 func longScan() int {
 	var kids []*memfs.Node
 	for i := 0; i < 200; i++ {
@@ -128,10 +129,40 @@ func longScan() int {
 		kids = append(kids, memfs.F(fmt.Sprintf("f%03d.txt", i), "x"))
 	}
 	root := memfs.D("", kids...)
-	slow := &scankit.Ex{N: "slow", Req: scankit.ReqBase("slow.bin"), Hook: func(*filesystem.ScanInput) { time.Sleep(2300 * time.Millisecond) }}
+	slow := &scankit.Ex{N: "slow", Req: scankit.ReqBase("slow.bin"), Hook: func(*filesystem.ScanInput) { time.Sleep(3200 * time.Millisecond) }}
 	fast := &scankit.Ex{N: "fast", Req: func(api filesystem.FileAPI) bool { return len(api.Path()) > 0 && api.Path() != "slow.bin" }}
 	cfg := &scalibr.ScanConfig{FilesystemExtractors: []filesystem.Extractor{slow, fast}, Capabilities: &plugin.Capabilities{},
 		ScanRoots: []*scalibrfs.ScanRoot{{FS: memfs.New(root), Path: ""}}}
+	res := scalibr.New().Scan(context.Background(), cfg)
+	if res.Status.Status != plugin.ScanStatusSucceeded {
+		fmt.Fprintln(os.Stderr, "long scan failed:", res.Status)
+		os.Exit(3)
+	}
+	return 1
+}
+
+type slowCollector struct {
+	stats.NoopCollector
+	at string
+}
+
+func (c slowCollector) AfterInodeVisited(p string) {
+	if p == c.at {
+		time.Sleep(3200 * time.Millisecond)
+	}
+}
+
+// longScanSlowHook: the walk is held up inside the stats hook of a DIRECTORY inode (between the
+// walk's bookkeeping and the directory handling), so that the status ticker fires exactly there.
+func longScanSlowHook() int {
+	var kids []*memfs.Node
+	for i := 0; i < 50; i++ {
+		kids = append(kids, memfs.D(fmt.Sprintf("d%02d", i), memfs.F("f.txt", "x")))
+	}
+	root := memfs.D("", kids...)
+	fast := &scankit.Ex{N: "fast", Req: scankit.ReqAlways}
+	cfg := &scalibr.ScanConfig{FilesystemExtractors: []filesystem.Extractor{fast}, Capabilities: &plugin.Capabilities{},
+		ScanRoots: []*scalibrfs.ScanRoot{{FS: memfs.New(root), Path: ""}}, Stats: slowCollector{at: "d25"}}
 	res := scalibr.New().Scan(context.Background(), cfg)
 	if res.Status.Status != plugin.ScanStatusSucceeded {
 		fmt.Fprintln(os.Stderr, "long scan failed:", res.Status)
@@ -154,5 +185,6 @@ func main() {
 		n += patches(15)
 		n += longScan()
 	}
+	n += longScanSlowHook()
 	fmt.Printf("race-runs=%d\n", n)
 }
